@@ -29,7 +29,7 @@ CODE_NAMES = ["Accepted", "NoSuchSpace", "NoSuchMember", "InvalidName", "NameInU
 OPS = ["NewSpace", "NewCells", "SetFormula", "RenameCells", "RenameSpace", "AddBases", "RemoveBases", "SetAttr", "DelAttr", "SetParams"]
 
 POOL = ["a", "b", "c", "d"]
-INVALID = ["", "1a", "for", "_x", "a b", "a.b"]
+INVALID = ["", "1a", "for", "_x", "a b", "a.b", "a\n", "b\u00b2"]     # the last two: seeded/C11_r4 (a pattern with $ and \w)
 SYS = ["_self", "_space", "_model"]
 
 
@@ -1117,8 +1117,11 @@ def c12_oracle(ops, r, exempt_n9=False):   # N9 is repaired in /repo
                         iexp[n] = None
                     for n in d["params"]:
                         iexp[n] = 0
-                    kindonly = lambda dd: {k: (":".join(v.split(":")[:2]) if isinstance(v, str) and v.startswith("?iface:") else v) for k, v in dd.items()}
-                    if kindonly(it["refs"]) != kindonly(iexp):     # a relative reference is re-bound in the ItemSpace
+                    # a relative reference (bound to a space / cells) is re-bound inside the ItemSpace, by name: what it is
+                    # bound to there belongs to C10; its NAME must be there
+                    rel = {k for k, v in iexp.items() if isinstance(v, str) and v.startswith("?iface:")}
+                    kindonly = lambda dd: {k: ("?iface" if k in rel else v) for k, v in dd.items()}
+                    if kindonly(it["refs"]) != kindonly(iexp):
                         bad.append("step %d %r: %s[0..].refs %r != parameters over special names over base refs over model refs %r" % (i - 1, op, p, it["refs"], iexp))
                     if sorted(it["cells"]) != sorted(c) or sorted(it["spaces"]) != sorted(s):
                         bad.append("step %d %r: %s[0..] cells / spaces %r %r differ from the base space's %r %r" % (i - 1, op, p, it["cells"], it["spaces"], sorted(c), sorted(s)))
@@ -1128,7 +1131,7 @@ def c12_oracle(ops, r, exempt_n9=False):   # N9 is repaired in /repo
                     for n, kd in it["attrs"].items():
                         want = "cells" if n in c else ({"_self": "space", "_space": "space", "_model": "model", "__builtins__": "builtins"}.get(n, ["v", iexp[n]]) if n in iexp else "space")
                         if isinstance(want, list) and isinstance(want[1], str) and want[1].startswith("?iface:"):
-                            want = want[1].split(":")[1]
+                            continue                  # re-bound relative reference (C10)
                         if kd != want:
                             bad.append("step %d %r: %s[0..].%s is %r, the containers say %r" % (i - 1, op, p, n, kd, want))
             # a derived member has a definer among the bases; a defined one is not shadowed away
